@@ -5,7 +5,7 @@ Parts:
   B  cpu masks:       CpuMask.tla
   C  inventory:       LinuxInventory.tla  (machine descriptions -> expected inventory)
 """
-import json, os
+import json, os, concurrent.futures
 import vlib
 from vlib import SPEC, workdir, tlc, tlc_prints, validate_trace, write_ndjson, read_ndjson
 
@@ -87,6 +87,168 @@ def part_cpulist(run):
     return len(cases) + len(pcases)
 
 
+# ------------------------------------------------------------------------------------------------ part B: masks
+
+def part_masks(run):
+    """CpuMask.tla: laws on 3-bit words (TLC), every insertion sequence replayed on the real mask type (hook H4)
+    under four word embeddings, judged by Trace_CpuMask."""
+    wd = workdir(PID, "masks", clean=True)
+    thorough = run.tier == "thorough"
+    cfg = os.path.join(wd, "mc.cfg")
+    open(cfg, "w").write("CONSTANTS WB = 3  MaxIns = %d\nSPECIFICATION Spec\nINVARIANT TypeOK IdsAreInserted WidthLaw "
+                         "OrderIrrelevant WidenKeepsSet GenCase\nPROPERTY NeverNarrower\nCHECK_DEADLOCK FALSE\n" % (3 if thorough else 2))
+    r = tlc(D, "MC_CpuMask", cfg=cfg, workers=4, timeout=1500)
+    run.add_tlc("CpuMask laws + generator (3-bit words, widths 1..3)", r)
+    if r.error:
+        raise vlib.ToolError(r.error)
+    if r.violation:
+        raise vlib.ToolError("CpuMask model violates its own laws: %s\n%s" % (r.violation, r.cex[:2000]))
+    cases = [json.loads(x) for x in tlc_prints(r.out, "MCASE")]
+    write_ndjson(os.path.join(wd, "cases.ndjson"), cases)
+    trace = os.path.join(wd, "trace.ndjson")
+    vlib.run_bin("h_cpus", ["masks", os.path.join(wd, "cases.ndjson"), trace])
+    nrand = 20000 if thorough else 3000
+    rtrace = os.path.join(wd, "rand.ndjson")
+    vlib.run_bin("h_cpus", ["masks-random", rtrace, nrand], env={"VERIF_SEED": run.seed})
+    total = 0
+    for name, t in (("enumerated", trace), ("random", rtrace)):
+        n, rejects = judge_parallel(run, "Trace_CpuMask", t, "Trace_CpuMask " + name, wd, chunks=6 if name == "enumerated" else 2)
+        total += n
+        for rj in rejects:
+            rec = rj.get("rec", rj)
+            run.violation("mask:" + classify_mask(rec), "mask record rejected by CpuMask: %s" % json.dumps(rec)[:400],
+                          {"part": "masks", "record": rec})
+    recs = read_ndjson(trace)
+    run.sample(recs[len(recs) // 2])
+    return len(cases)
+
+
+def classify_mask(rec):
+    if rec.get("panic"):
+        return "panic:" + rec.get("op", "?")
+    if rec.get("op") == "maskeq":
+        return "eq-not-set-equality"
+    o = rec.get("obs", {})
+    if sorted(o.get("bits", [])) != sorted(set(rec.get("rins", []))):
+        return "kernel-bits-differ-from-inserted-ids"
+    if sorted(o.get("ids", [])) != sorted(set(rec.get("rins", []))):
+        return "processor-ids-differ-from-inserted-ids"
+    return "width-or-decode"
+
+
+# ------------------------------------------------------------------------------------------ part C: inventory
+
+def split_file(path, wd, chunks):
+    lines = open(path).read().splitlines(True)
+    n = max(1, (len(lines) + chunks - 1) // chunks)
+    out = []
+    for i in range(0, len(lines), n):
+        f = os.path.join(wd, "%s.part%d" % (os.path.basename(path), i // n))
+        open(f, "w").writelines(lines[i:i + n])
+        out.append(f)
+    return out, len(lines)
+
+
+def judge_parallel(run, module, trace, name, wd, chunks=4, timeout=3000):
+    """Stateless judges: split the trace and validate the parts concurrently (one single-worker TLC each)."""
+    parts, n = split_file(trace, wd, chunks)
+    rejects, bad = [], []
+
+    def one(f):
+        # like vlib.validate_trace, with a private metadir per concurrent TLC
+        md = os.path.join(vlib.WORK, "_tlc", "%s_%s_%d" % (module, os.path.basename(f), os.getpid()))
+        r = tlc(D, module, cfg=module + ".cfg", workers=1, env={"TRACE": f}, timeout=timeout, xmx="3g", xss="1g",
+                deque=True, metadir=md)
+        if r.error:
+            raise vlib.ToolError("trace validation %s failed: %s\n%s" % (module, r.error, r.out[-3000:]))
+        rj = [json.loads(x) for x in tlc_prints(r.out, "REJECT")]
+        if r.violation and r.violation != "postcondition" and not rj:
+            rj.append({"judge_violation": r.violation, "cex": r.cex[:4000]})
+        return (r.violation is None and not rj), rj, r
+
+    with concurrent.futures.ThreadPoolExecutor(max_workers=len(parts)) as ex:
+        for ok, rj, tr in ex.map(one, parts):
+            run.add_tlc(name, tr, count_states=False)
+            rejects += rj
+            bad += tlc_prints(tr.out, "NOTWF") + tlc_prints(tr.out, "BADSTIM")
+    if bad:
+        raise vlib.ToolError("%s: %d records carry a stimulus the judge does not accept as well-formed (harness/generator "
+                             "bug): %s" % (name, len(bad), bad[0][:600]))
+    run.cov["traces_validated_against_impl"] += n
+    run.cov["evaluations"] += n
+    vlib.log("%s: %d records judged, %d rejected" % (name, n, len(rejects)))
+    return n, rejects
+
+
+def classify_inventory(rj):
+    why = rj.get("why", "?")
+    cg = rj.get("cg", "?")
+    if why == "quota":
+        return "inventory:quota:cg=%s" % cg
+    if why == "panic":
+        msg = rj.get("rec", {}).get("obs", {}).get("panic", "")
+        site = msg.split(":")[0].strip().replace(" ", "_")[:24]
+        return "inventory:panic:%s" % site
+    return "inventory:%s" % why
+
+
+def part_inventory(run):
+    wd = workdir(PID, "inventory", clean=True)
+    thorough = run.tier == "thorough"
+    n_cases = 0
+    # (1) every kernel-consistent description over the cpu ids, 2 node ids, lexical features rotating;
+    # (2) every lexical style x bogomips pattern x cgroup form over 2 cpu ids
+    gens = [("topology", "{0,1,2,3}" if thorough else "{0,1,2}", "{0,1}", "FALSE"),
+            ("lexical", "{0,2}" if thorough else "{1}", "{0,1}" if thorough else "{1}", "TRUE")]
+    for gname, cpus, nodes, full in gens:
+        cfg = os.path.join(wd, "gen_%s.cfg" % gname)
+        open(cfg, "w").write("CONSTANTS Cpus = %s NodeIds = %s FullLexical = %s\nINIT Init\nNEXT Next\n"
+                             "INVARIANT AllWellFormed JudgeAcceptsExpected FactsConsistent GenCase\nCHECK_DEADLOCK FALSE\n"
+                             % (cpus, nodes, full))
+        g = tlc(D, "MC_LinuxInventory", cfg=cfg, workers=8, timeout=3000, xmx="8g")
+        run.add_tlc("LinuxInventory generator %s (Cpus=%s NodeIds=%s)" % (gname, cpus, nodes), g)
+        if g.error or g.violation:
+            raise vlib.ToolError("inventory generator %s failed: %s %s\n%s" % (gname, g.error, g.violation, (g.cex or g.out)[-3000:]))
+        cases = [json.loads(x) for x in tlc_prints(g.out, "ICASE")]
+        if len(cases) != g.distinct and len(cases) < g.distinct:
+            raise vlib.ToolError("generator %s printed %d cases for %d states" % (gname, len(cases), g.distinct))
+        n_cases += len(cases)
+        cf = os.path.join(wd, "cases_%s.ndjson" % gname)
+        write_ndjson(cf, cases)
+        trace = os.path.join(wd, "trace_%s.ndjson" % gname)
+        vlib.run_bin("h_cpus", ["inventory", cf, trace], timeout=3000)
+        # explorer-style fidelity: the code's answers vs the canonical expectation inside the judge's ranges (drift only)
+        exp = {json.dumps(c["d"], sort_keys=True): c["exp"] for c in cases}
+        drift = 0
+        for rec in read_ndjson(trace):
+            e = exp.get(json.dumps(rec["d"], sort_keys=True))
+            o = rec["obs"]
+            if e is not None and any(e[k] != o[k] for k in ("maxcpu", "maxregion", "active", "quota1000", "nprocs")):
+                drift += 1
+        run.cov["drift_inventory_vs_canonical_%s" % gname] = drift
+        n, rejects = judge_parallel(run, "Trace_LinuxInventory", trace, "Trace_LinuxInventory " + gname, wd,
+                                    chunks=8 if thorough else 6)
+        report_inventory(run, rejects)
+        recs = read_ndjson(trace)
+        run.sample(recs[len(recs) // 3])
+    # (3) seeded random machines up to 1024 cpus / 8 nodes, same judge
+    nrand = 1500 if thorough else 300
+    trace = os.path.join(wd, "trace_random.ndjson")
+    vlib.run_bin("h_cpus", ["inventory-random", trace, nrand], env={"VERIF_SEED": run.seed}, timeout=3000)
+    n, rejects = judge_parallel(run, "Trace_LinuxInventory", trace, "Trace_LinuxInventory random", wd, chunks=8)
+    report_inventory(run, rejects)
+    run.cov["inventory_random_machines"] = nrand
+    return n_cases
+
+
+def report_inventory(run, rejects):
+    for rj in rejects:
+        key = classify_inventory(rj)
+        rec = rj.get("rec", rj)
+        run.violation(key, "inventory rejected by LinuxInventory (%s): d=%s obs=%s" % (
+            rj.get("why"), json.dumps(rec.get("d"))[:500], json.dumps(rec.get("obs"))[:300]), {"part": "inventory", "record": rec})
+
+
 def report_rejects(run, rejects, what):
     for rj in rejects:
         rec = rj.get("rec", rj)
@@ -109,14 +271,102 @@ def classify(rec):
 def check(run):
     vlib.cargo_build(["h_cpus"])
     n = part_cpulist(run)
-    run.cov["distinct_nontrivial"] = n
+    nm = part_masks(run)
+    ni = part_inventory(run)
+    run.cov["distinct_nontrivial"] = n + nm + ni
     run.cov["rule"] = ("cpulist: every id set over W-bit ids (explorer + replay under low/mid/top embeddings), every text "
-                       "of <=2 parts over 2-bit ids and strides 0..3; distinct = TLC-enumerated cases")
+                       "of <=2 parts over 2-bit ids and strides 0..3; masks: every insertion sequence (<=2, thorough <=3) "
+                       "into masks of width 1..3 over 4 three-bit words x 4 word embeddings; inventory: every kernel-consistent "
+                       "machine description over <=3 (thorough 4) cpu ids / 2 node ids + every lexical/cgroup form; "
+                       "distinct = TLC-enumerated cases (cpulist %d, masks %d, machine descriptions %d)" % (n, nm, ni))
     run.cov["exhaustive"] = True
     run.assume("u32 arithmetic of the code behaves like the model's W-bit checked arithmetic under the top-of-range embedding")
+    run.assume("rendering of a machine description to file text (harness, own cpulist writer) is lexical and faithful")
+    run.assume("kernel-consistency of descriptions is as stated by WellFormed in LinuxInventory.tla")
+
+
+def selftest():
+    """Binding demonstration: corrupt one field of accepted records and see the judges reject them."""
+    run = vlib.Run(PID, "quick")
+    vlib.cargo_build(["h_cpus"])
+    wd = workdir(PID, "selftest", clean=True)
+    bad = 0
+    # inventory: take accepted records, corrupt one observed field each
+    cfg = os.path.join(wd, "gen.cfg")
+    open(cfg, "w").write("CONSTANTS Cpus = {0,1} NodeIds = {0,1} FullLexical = FALSE\nINIT Init\nNEXT Next\nINVARIANT GenCase\nCHECK_DEADLOCK FALSE\n")
+    g = tlc(D, "MC_LinuxInventory", cfg=cfg, workers=2)
+    cases = [json.loads(x) for x in tlc_prints(g.out, "ICASE")][:200]
+    write_ndjson(os.path.join(wd, "cases.ndjson"), cases)
+    trace = os.path.join(wd, "trace.ndjson")
+    vlib.run_bin("h_cpus", ["inventory", os.path.join(wd, "cases.ndjson"), trace])
+    ok, rejects, tr = validate_trace(D, "Trace_LinuxInventory", trace, cfg="Trace_LinuxInventory.cfg")
+    if rejects:
+        print("selftest: clean trace rejected", rejects[:1]); bad += 1
+    recs = read_ndjson(trace)
+    muts = []
+    for i, r in enumerate(recs[:120]):
+        r = json.loads(json.dumps(r))
+        o = r["obs"]
+        k = i % 6
+        if k == 0: o["maxcpu"] += 1
+        elif k == 1: o["maxregion"] += 1
+        elif k == 2: o["quota1000"] += 7
+        elif k == 3: o["active"] += 1
+        elif k == 4: o["rows"][0]["rep"] = 1 - o["rows"][0]["rep"]
+        else:
+            rep = [x for x in o["rows"] if x["rep"] == 1]
+            rep[0]["region"] += 1
+        muts.append(r)
+    ctrace = os.path.join(wd, "corrupt.ndjson")
+    write_ndjson(ctrace, muts)
+    ok, rejects, tr = validate_trace(D, "Trace_LinuxInventory", ctrace, cfg="Trace_LinuxInventory.cfg")
+    print("selftest inventory: %d corrupted records, %d rejected" % (len(muts), len(rejects)))
+    if len(rejects) != len(muts):
+        bad += 1
+    # masks
+    open(os.path.join(wd, "mc.cfg"), "w").write("CONSTANTS WB = 3  MaxIns = 2\nSPECIFICATION Spec\nINVARIANT GenCase\nCHECK_DEADLOCK FALSE\n")
+    g = tlc(D, "MC_CpuMask", cfg=os.path.join(wd, "mc.cfg"), workers=2)
+    mc = [json.loads(x) for x in tlc_prints(g.out, "MCASE")][:100]
+    write_ndjson(os.path.join(wd, "mcases.ndjson"), mc)
+    mtrace = os.path.join(wd, "mtrace.ndjson")
+    vlib.run_bin("h_cpus", ["masks", os.path.join(wd, "mcases.ndjson"), mtrace])
+    recs = [r for r in read_ndjson(mtrace)]
+    muts = []
+    for i, r in enumerate(recs[:150]):
+        r = json.loads(json.dumps(r))
+        if r["op"] == "maskeq":
+            r["eq"] = not r["eq"]
+        elif i % 3 == 0:
+            r["obs"]["words"] += 1
+        elif i % 3 == 1:
+            r["obs"]["bits"] = r["obs"]["bits"] + [5000]
+        else:
+            r["obs"]["ids"] = r["obs"]["ids"][1:] if r["obs"]["ids"] else [7]
+        muts.append(r)
+    cm = os.path.join(wd, "mcorrupt.ndjson")
+    write_ndjson(cm, muts)
+    ok, rejects, tr = validate_trace(D, "Trace_CpuMask", cm, cfg="Trace_CpuMask.cfg")
+    print("selftest masks: %d corrupted records, %d rejected" % (len(muts), len(rejects)))
+    if len(rejects) != len(muts):
+        bad += 1
+    print("selftest C11:", "FAILED" if bad else "ok")
+    return 1 if bad else 0
 
 
 def replay(path):
     rep = json.load(open(path))
-    print(json.dumps(rep, indent=1))
+    r = rep.get("replay", {})
+    print(json.dumps({k: rep[k] for k in rep if k != "replay"}, indent=1))
+    if r.get("part") == "inventory":
+        vlib.cargo_build(["h_cpus"])
+        wd = workdir(PID, "replay_run", clean=True)
+        p = vlib.run_bin("h_cpus", ["inventory-show", json.dumps(r["record"]["d"])])
+        print(p.stdout)
+        write_ndjson(os.path.join(wd, "case.ndjson"), [r["record"]["d"]])
+        trace = os.path.join(wd, "trace.ndjson")
+        vlib.run_bin("h_cpus", ["inventory", os.path.join(wd, "case.ndjson"), trace])
+        ok, rejects, tr = validate_trace(D, "Trace_LinuxInventory", trace, cfg="Trace_LinuxInventory.cfg")
+        print("judge:", "accepted" if ok else "REJECTED " + json.dumps(rejects)[:600])
+        return 0 if ok else 1
+    print(json.dumps(r, indent=1)[:4000])
     return 0
